@@ -119,9 +119,11 @@ fn main() {
                 if first.is_none() {
                     first = Some(out.log.clone());
                 }
+                if std::env::var("VX_TRACE").is_ok() {
+                    println!("prefix {:?} taken {:?}", prefix, out.chooser.taken);
+                }
                 Ok((out.chooser, true))
-            })
-            .unwrap();
+            });
             println!("{:?}", st);
             for (k, v) in &outcomes {
                 println!("{:8} {}", v, k);
@@ -164,6 +166,14 @@ fn main() {
                     println!("VIOLATION property={} replay={}", prop2, file);
                     exit(1);
                 });
+                if let Some(pre) = js.get("preceding_simulation") {
+                    if let (Some(pi), Some(pc)) = (pre["scenario_index"].as_u64(), pre["choices"].as_array()) {
+                        let pc: Vec<u16> = pc.iter().map(|c| c.as_u64().unwrap() as u16).collect();
+                        if let Some(psc) = fam.scenarios.get(pi as usize) {
+                            let _ = world::run_once(psc, &pc, true);
+                        }
+                    }
+                }
                 let out = world::run_once(sc, &choices, true);
                 let an = oracle::analyze(sc, &out);
                 for e in &out.log {
